@@ -51,9 +51,9 @@ func init() {
 		Assumptions: []string{"crash model as C01", "DDL is not transactional in this engine: crash points lie after the CREATE TABLE call returned"},
 		NumCases: func(env *core.Env) int {
 			if env.Thorough() {
-				return 800
+				return 2400
 			}
-			return 64
+			return 256
 		},
 		RunCase:     func(env *core.Env, idx int) *core.CaseResult { return sessCase(env, idx, "C10") },
 		Witness:     runSQLWitness,
@@ -100,6 +100,8 @@ func (s *sess) addSticky(t string) {
 		}
 	}
 	s.sticky = append(s.sticky, t)
+	// (a child process that dies cannot report its tags: the parent reads them from the child's log, see core.SetCrashTagLogHook)
+	fmt.Fprintf(os.Stderr, "STICKY-TAGS idx=%d %s\n", s.idx, strings.Join(s.sticky, " "))
 }
 
 // noteRestart derives the input-side trigger tags of the listed index findings from the restart about to happen.
@@ -193,7 +195,7 @@ func (s *sess) createTable() bool {
 	for i := 0; i < ncol; i++ {
 		cn := fmt.Sprintf("c%d", i)
 		if s.wideCatalog {
-			cn += strings.Repeat("x", r.Intn(28)) // catalog rows of very different lengths
+			cn += strings.Repeat("x", []int{0, 0, 5, 12, 28, 45, 60}[r.Intn(7)]) // catalog rows of very different lengths
 		}
 		cols = append(cols, rm.Col{Name: cn, K: rm.Kind(r.Intn(3))})
 	}
@@ -568,6 +570,12 @@ func (s *sess) close(kind string) bool {
 	return true
 }
 
+func init() {
+	for _, id := range []string{"C09", "C10"} {
+		core.SetCrashTagLogHook(id, func(env *core.Env, idx int, logPath string) []string { return core.StickyTagsFromLog(logPath, idx) })
+	}
+}
+
 func sessCase(env *core.Env, idx int, prop string) *core.CaseResult {
 	r := env.Rand(idx)
 	res := core.NewResult()
@@ -575,7 +583,7 @@ func sessCase(env *core.Env, idx int, prop string) *core.CaseResult {
 	s.path = fmt.Sprintf("%s/sess_%s_%d", env.TmpDir, prop, idx)
 	sqlx.RemoveFiles(s.path)
 	s.memKB = []int{512, 1024, 2048, 4096}[r.Intn(4)]
-	if prop == "C10" && idx%8 == 7 && s.memKB < 2048 {
+	if prop == "C10" && idx%4 == 3 && s.memKB < 2048 {
 		s.memKB = 2048 // wide-catalog sessions (below): many tables and columns
 	}
 	s.base = &rec.Image{}
@@ -690,7 +698,7 @@ func sessCase(env *core.Env, idx int, prop string) *core.CaseResult {
 		}
 	} else {
 		nTables := 2 + r.Intn(5)
-		if idx%8 == 7 {
+		if idx%4 == 3 {
 			// many tables with many columns and names of mixed lengths: the column catalog spans several pages and its
 			// rows are placed first-fit after restarts
 			s.wideCatalog = true
